@@ -845,6 +845,83 @@ class FG:
             self.emit('bend', R(t))
             self.p.features.add('bstart/bend')
 
+    def top_alloca(self, pr, n, int_args):
+        """one alloca of the entry sequence with a size operand of every shape: an immediate, a register set by a
+        `mov imm` standing right before / further up / set twice, a register initialised by `mov imm` and then
+        ADJUSTED by a run-time or constant amount (size = constant + variable part: what decides "constant size"
+        must see the redefinition), a wholly computed size.  Returns the number of bytes the block is known to
+        have at least: all of them are written and read later, so the bytes behind the constant part are in use."""
+        r = self.rng
+        k = r.random()
+        pw = self.opts.get('p_alloca_shapes', 0.45)
+        if k >= pw:
+            self.emit('alloca', R(pr), Imm(n))
+            return n
+        k /= pw
+        sz = self.new_local('sz')
+        SZ = R(sz)
+
+        def runtime(lo_choices):
+            """an amount known only at run time, >= the returned minimum, a multiple of 8"""
+            t = self.new_local('sv')
+            m = r.choice(lo_choices)
+            self.emit('and', R(t), R(r.choice(int_args)), Imm(r.choice([0x8, 0x18, 0x38])))
+            if m: self.emit('add', R(t), R(t), Imm(m))
+            return R(t), m
+        if k < 0.2:
+            self.emit('mov', SZ, Imm(n)); self.emit('alloca', R(pr), SZ)
+            self.p.features.add('alloca:size-mov-imm')
+            return n
+        if k < 0.3:
+            # the move is not adjacent; the insn in between does not touch the size register
+            self.emit('mov', SZ, Imm(n))
+            t = self.new_local('sv')
+            if int_args: self.emit('add', R(t), R(r.choice(int_args)), Imm(1))
+            else: self.emit('mov', R(t), Imm(7))
+            self.emit('alloca', R(pr), SZ)
+            self.p.features.add('alloca:size-mov-imm-apart')
+            return n
+        if k < 0.4:
+            self.emit('mov', SZ, Imm(r.choice([1, 8, 16, 200])))
+            self.emit('mov', SZ, Imm(n)); self.emit('alloca', R(pr), SZ)
+            self.p.features.add('alloca:size-mov-twice')
+            return n
+        if k < 0.55 or not int_args:
+            # constant adjusted by a constant
+            c = r.choice([8, 16, 24, 32])
+            self.emit('mov', SZ, Imm(c))
+            op = r.choice(['add', 'add', 'mul', 'lsh', 'or'])
+            if op == 'add':
+                d = r.choice([8, 16, 40]); tot = c + d
+            elif op == 'mul':
+                d = r.choice([2, 3, 4]); tot = c * d
+            elif op == 'lsh':
+                d = r.choice([1, 2]); tot = c << d
+            else:
+                d = r.choice([64, 128]); tot = c | d
+            self.emit(op, SZ, SZ, Imm(d))
+            self.emit('alloca', R(pr), SZ)
+            self.p.features.add('alloca:size-mov-imm-adjusted-const')
+            return tot
+        if k < 0.85:
+            # constant + run-time part (the z in `char buf[16 + z]`)
+            c = r.choice([8, 16, 16, 24, 32])
+            self.emit('mov', SZ, Imm(c))
+            v, m = runtime([8, 8, 16, 24, 0])
+            if r.random() < 0.3:
+                self.emit('mov', self.new_local_reg('sv'), Imm(r.choice([0, 5])))   # something unrelated in between
+            self.emit(r.choice(['add', 'add', 'or']) if c % 64 == 0 else 'add', SZ, SZ, v)
+            self.emit('alloca', R(pr), SZ)
+            self.p.features.add('alloca:size-mov-imm-adjusted-runtime')
+            return c + m
+        v, m = runtime([8, 16, 32])
+        self.emit('alloca', R(pr), v)
+        self.p.features.add('alloca:size-computed')
+        return m
+
+    def new_local_reg(self, cls):
+        return R(self.new_local(cls))
+
     def arg_for(self, ty):
         r = self.rng
         if ty in ('i64', 'u64'):
@@ -965,7 +1042,9 @@ class FG:
         if tops and r.random() < self.opts.get('p_alloca_after_call', 0.2):
             # the caller's own top-level block must survive the (possibly inlined) call
             q = r.choice(tops)
-            self.emit('xor', self.X_(), self.X_(), Mem('i64', r.randrange(0, q.size // 8) * 8, q.reg))
+            # any word, the LAST one half of the time (the part of a block behind a constant prefix)
+            off = (q.size // 8 - 1) * 8 if r.random() < 0.5 else r.randrange(0, q.size // 8) * 8
+            self.emit('xor', self.X_(), self.X_(), Mem('i64', off, q.reg))
         if len(c['res']) > 1: self.p.features.add('call:multi-result')
 
     def ent_arg(self):
@@ -1222,7 +1301,7 @@ class FG:
             n = r.choice([1, 2, 3, 4, 8, 12, 16, 24, 40, 64, 100]) if not lean else r.choice([2, 8, 8, 16])
             pr = 'ta%d' % i
             f.locals.append(('i64', pr))
-            self.emit('alloca', R(pr), Imm(n))
+            n = self.top_alloca(pr, n, int_args)
             tops.append((pr, n))
             self.p.features.add('alloca:top')
         if ntop >= 2: self.p.features.add('alloca:adjacent')
